@@ -300,12 +300,44 @@ pub fn run(case: &Value, ctx: &Ctx) -> Outcome {
             let vcf = gen::vcf_text(&cols, &[rec], false);
             let list = (0..n).map(|i| format!("s{i}=p{i}")).collect::<Vec<_>>().join(",");
             let mut args: Vec<String> = vec!["create".into(), "-s".into(), list];
-            if sc["project"].as_bool().unwrap() {
-                args.extend(["-p".into(), vec!["1"; n].join(",")]);
+            match sc["project"].as_str().unwrap() {
+                "same" => args.extend(["-p".into(), vec!["1"; n].join(",")]),
+                // two populations keep their individual, all others are projected to none: 3 x 3 x 1 x .. x 1 cells
+                "tiny" => args.extend(["--project-shape".into(), (0..n).map(|i| if i < 2 { "3" } else { "1" }).collect::<Vec<_>>().join(",")]),
+                _ => {}
             }
             let a: Vec<&str> = args.iter().map(|s| s.as_str()).collect();
             let r = cli::sfs(ctx, &a, Some(vcf.as_bytes()));
-            verdict(&mut out, format!("manypops/{n}"), &r, expect, sc.clone());
+            verdict(&mut out, format!("manypops/{n}/{}", sc["project"].as_str().unwrap()), &r, expect, sc.clone());
+            if sc["project"] == "tiny" && r.ok() {
+                // every sample is 0/1: the site lands in the middle cell of the 3 x 3 spectrum
+                let ok = cli::parse_text(&r.stdout).map(|(s, v)| s.iter().product::<usize>() == 9 && v.len() == 9 && (v[4] - 1.0).abs() < 1e-9 && (v.iter().sum::<f64>() - 1.0).abs() < 1e-9).unwrap_or(false);
+                out.check(ok, || "cli/manypops/tiny-projection-values".into(), || json!({"stdout": String::from_utf8_lossy(&r.stdout).chars().take(200).collect::<String>()}));
+            }
+        }
+        "npyjunk" => {
+            let k = sc["k"].as_u64().unwrap() as usize;
+            let version = sc["version"].as_u64().unwrap() as u8;
+            // 131 bytes of dict text, "\u{3c0}" (two bytes) starting at byte k, then the newline
+            let dict = format!("{{'descr': [('{}\u{3c0}{}', '<f8')], 'fortran_order': False, 'shape': (2,), }}", "a".repeat(k.saturating_sub(13)), "b".repeat(130usize.saturating_sub(k)));
+            let bytes = crate::fam_npy::assemble(version, &format!("{dict}\n"), &[0u8; 16]);
+            for tool in [vec!["view"], vec!["stat", "-s", "sum"]] {
+                let r = cli::sfs(ctx, &tool, Some(&bytes));
+                verdict(&mut out, format!("npyjunk/v{version}/{}", tool[0]), &r, expect, sc.clone());
+            }
+        }
+        "badaxes" => {
+            let shape = sc["shape"].as_str().unwrap();
+            let dims: Vec<usize> = shape.split('/').map(|x| x.parse().unwrap()).collect();
+            let n: usize = dims.iter().product();
+            let vals: Vec<f64> = (0..n).map(|i| (i % 5) as f64 + 1.0).collect();
+            let bytes = if sc["format"] == "text" { cli::write_text(&dims, &vals, 6) } else { cli::write_npy(&dims, &vals) };
+            let op: Vec<String> = sc["op"].as_array().unwrap().iter().map(|x| x.as_str().unwrap().to_string()).collect();
+            let mut args: Vec<&str> = vec!["view"];
+            args.extend(op.iter().map(|x| x.as_str()));
+            let r = cli::sfs(ctx, &args, Some(&bytes));
+            verdict(&mut out, format!("badaxes/{shape}/{}", op.join(" ")), &r, expect, sc.clone());
+            out.check(r.ok() || r.stdout.is_empty(), || "cli/badaxes/partial-output".into(), || json!({"sc": sc}));
         }
         "threads" => {
             let (cols, recs) = small_vcf();
